@@ -292,7 +292,9 @@ package internal
 //@   trusted T-xml
 //@   requires R1: val != nil
 //@   decodes v
+//@   assigns ghost:dlLast
 //@   ensures D1: err != nil ==> !isHTTP(err) && fromDecoder(err)
+//@   ensures D2: dlLast == (err == nil ? smt("$(Array Int Iface)", "(store $0 (i_tag $1) $1)", old(dlLast), v) : old(dlLast))
 //@ spec opaque hasProp(ps PropStat, name xml.Name) bool = exists i int :: 0 <= i && i < len(ps.Prop.Raw) && namedRaw(ps.Prop.Raw[i]) && rawName(ps.Prop.Raw[i]) == name
 //@ spec opaque hasPropP(p *Prop, name xml.Name) bool = exists i int :: 0 <= i && i < len(p.Raw) && namedRaw(p.Raw[i]) && rawName(p.Raw[i]) == name
 //@ func internal.(*Prop).Get(p, name) (raw)
@@ -309,7 +311,10 @@ package internal
 //@   requires R1: resp != nil
 //@   allocates
 //@   decodes values
+//@   assigns ghost:dlLast
 //@   ensures E0: len(values) == 0 ==> err == nil
+//@   -- the value that was filled is logged under its type; nothing is logged on failure
+//@   ensures E5: len(values) > 0 ==> dlLast == (err == nil ? smt("$(Array Int Iface)", "(store $0 (i_tag $1) $1)", old(dlLast), old(values[0])) : old(dlLast))
 //@   -- a failed response is surfaced as an error with its status, whatever it lists
 //@   ensures E1: len(values) > 0 && old(vxErr(values[0]) == nil && respFailed(resp)) ==> err != nil && httpCode(err) == old(resp.Status.Code)
 //@   -- success means: the response did not fail and the value came from a propstat with status 200, the first that lists the property
@@ -321,6 +326,7 @@ package internal
 //@   -- (the outer loop returns in its first iteration, so the only loop of the compiled function is the one over the propstats)
 //@   loop 1 invariant I1: name == old(vxName(values[0])) && old(vxErr(values[0])) == nil && old(!respFailed(resp)) && (forall j int :: 0 <= j && j < #i ==> old(!hasProp(resp.PropStats[j], vxName(values[0]))))
 //@   loop 1 invariant I2: len(resp.PropStats) == old(len(resp.PropStats)) && (forall j int :: 0 <= j && j < len(resp.PropStats) ==> resp.PropStats[j] == old(resp.PropStats[j]))
+//@   loop 1 invariant I3: dlLast == old(dlLast)
 
 //@ -- C14: HTTP status to error. A call fails exactly when the transport fails or the status is not 2xx; the error
 //@ -- then is an *HTTPError with that status which wraps the DAV:error element of an XML body.
